@@ -189,8 +189,13 @@ func baseConfig(c Case, trusted []string) map[string]any {
 		svcName = "proxy"
 	}
 
+	// the log level is a configuration dimension too: code that only runs when dumps are written
+	// (trace) or details are logged (debug) sits on the decision path
+	level := map[string]string{app.Decision: "trace", app.Envoy: "debug", app.Proxy: "error"}[c.Entry]
+
 	cfg := map[string]any{
 		"serve": map[string]any{svcName: svc},
+		"log":   map[string]any{"level": level},
 		"mechanisms": map[string]any{
 			"authenticators": []any{map[string]any{"id": "anon", "type": "anonymous"}},
 			"finalizers":     []any{map[string]any{"id": "noop", "type": "noop"}},
